@@ -34,3 +34,14 @@ func VerifListenerBacklog(l *Listener) (unaccepted, sessions int) {
 	defer l.sessionLock.RUnlock()
 	return len(l.chAccepts), len(l.sessions)
 }
+
+// VerifSessionDecoder returns the FEC decoder's current data/parity shard counts (0,0 without
+// FEC) and the number of shard groups it holds.
+func VerifSessionDecoder(s *UDPSession) (data, parity, groups int) {
+	s.mu.Lock()
+	defer s.mu.Unlock()
+	if s.fecDecoder == nil {
+		return 0, 0, 0
+	}
+	return s.fecDecoder.dataShards, s.fecDecoder.parityShards, len(s.fecDecoder.shardSet)
+}
